@@ -5,20 +5,13 @@ import TLVerif.Codec.Ops.Misc
 import TLVerif.Codec.Ops.HandShape
 import TLVerif.Codec.Ops.Rand
 import TLVerif.Codec.Ops.Access
-<<<<<<< HEAD
 import TLVerif.Codec.Ops.Reuse
-=======
 import TLVerif.Codec.Ops.Result
->>>>>>> fam-results
 /-! Line-protocol handler of the `codec` family. Stateful: `codec.desc` lines register descriptors;
 every other op is answered by the first per-aspect handler (Ops/*.lean) that recognises it. -/
 namespace TLVerif.Codec
 
-<<<<<<< HEAD
-def opHandlers : List OpHandler := [handleTL1, handleTL2, handleJson, handleMisc, handleHandShape, handleRand, handleAccess, handleReuse]
-=======
-def opHandlers : List OpHandler := [handleTL1, handleTL2, handleJson, handleMisc, handleHandShape, handleRand, handleAccess, handleResult]
->>>>>>> fam-results
+def opHandlers : List OpHandler := [handleTL1, handleTL2, handleJson, handleMisc, handleHandShape, handleRand, handleAccess, handleReuse, handleResult]
 
 def firstSome (st : DState) (op : String) (args : List String) : List OpHandler → String
   | [] => "bad-op"
